@@ -82,12 +82,27 @@ impl ShapeIndex {
     }
 }
 
+/// Position in bytes of the record an index entry points to
+/// (offsets are stored in 16-bit words; a negative one is invalid).
+fn shape_offset_in_bytes(shape_index: &ShapeIndex) -> std::io::Result<u64> {
+    u64::try_from(i64::from(shape_index.offset) * 2).map_err(|_| {
+        std::io::Error::new(
+            std::io::ErrorKind::InvalidData,
+            "negative record offset in the index file",
+        )
+    })
+}
+
 /// Read the content of a .shx file
 fn read_index_file<T: Read>(mut source: T) -> Result<Vec<ShapeIndex>, Error> {
     let header = header::Header::read_from(&mut source)?;
 
-    let num_shapes = ((header.file_length * 2) - header::HEADER_SIZE) / INDEX_RECORD_SIZE as i32;
-    let mut shapes_index = Vec::<ShapeIndex>::with_capacity(num_shapes as usize);
+    // The declared length comes from the file: the arithmetic is done in i64 so that
+    // no value can overflow, and a length smaller than the header means no entry.
+    let num_shapes = ((i64::from(header.file_length) * 2) - i64::from(header::HEADER_SIZE))
+        / INDEX_RECORD_SIZE as i64;
+    let num_shapes = usize::try_from(num_shapes).unwrap_or(0);
+    let mut shapes_index = Vec::<ShapeIndex>::with_capacity(num_shapes);
     for _ in 0..num_shapes {
         let offset = source.read_i32::<BigEndian>()?;
         let record_size = source.read_i32::<BigEndian>()?;
@@ -104,7 +119,13 @@ fn read_one_shape_as<T: Read, S: ReadableShape>(
     mut source: &mut T,
 ) -> Result<(record::RecordHeader, S), Error> {
     let hdr = record::RecordHeader::read_from(&mut source)?;
-    let record_size = hdr.record_size * 2;
+    // The size is stored in 16-bit words; a negative size or one whose byte count
+    // does not fit in an i32 cannot describe a record.
+    let record_size = hdr
+        .record_size
+        .checked_mul(2)
+        .filter(|size| *size >= 0)
+        .ok_or(Error::InvalidShapeRecordSize)?;
     let shape = S::read_from(&mut source, record_size)?;
     Ok((hdr, shape))
 }
@@ -135,16 +156,26 @@ impl<T: Read + Seek, S: ReadableShape> Iterator for ShapeIterator<'_, T, S> {
                 // Its 'safer' to seek to the shape offset when we have the `shx` file
                 // as some shapes may not be stored sequentially and may contain 'garbage'
                 // bytes between them
-                let start_pos = shapes_indices.next()?.offset * 2;
-                if start_pos != self.current_pos as i32 {
-                    if let Err(err) = self.source.seek(SeekFrom::Start(start_pos as u64)) {
+                let start_pos = match shape_offset_in_bytes(shapes_indices.next()?) {
+                    Ok(pos) => pos,
+                    Err(err) => return Some(Err(err.into())),
+                };
+                if start_pos != self.current_pos as u64 {
+                    if let Err(err) = self.source.seek(SeekFrom::Start(start_pos)) {
                         return Some(Err(err.into()));
                     }
                     self.current_pos = start_pos as usize;
                 }
             }
             let (hdr, shape) = match read_one_shape_as::<T, S>(self.source) {
-                Err(e) => return Some(Err(e)),
+                Err(e) => {
+                    // Without an index there is no way to find where the next record
+                    // starts once a record could not be read: the iteration ends.
+                    if self.shapes_indices.is_none() {
+                        self.current_pos = self.file_length;
+                    }
+                    return Some(Err(e));
+                }
                 Ok(hdr_and_shape) => hdr_and_shape,
             };
             self.current_pos += record::RecordHeader::SIZE;
@@ -355,7 +386,7 @@ impl<T: Read + Seek> ShapeReader<T> {
             _shape: std::marker::PhantomData,
             source: &mut self.source,
             current_pos: header::HEADER_SIZE as usize,
-            file_length: (self.header.file_length as usize) * 2,
+            file_length: usize::try_from(self.header.file_length).unwrap_or(0) * 2,
             shapes_indices: self.shapes_index.as_ref().map(|s| s.iter()),
         }
     }
@@ -453,12 +484,11 @@ impl<T: Read + Seek> ShapeReader<T> {
     /// was not constructed with [ShapeReader::with_shx]
     pub fn seek(&mut self, index: usize) -> Result<(), Error> {
         if let Some(ref shapes_index) = self.shapes_index {
-            let offset = shapes_index
-                .get(index)
-                .map(|shape_idx| (shape_idx.offset * 2) as u64);
-
-            match offset {
-                Some(n) => self.source.seek(SeekFrom::Start(n)),
+            match shapes_index.get(index) {
+                Some(shape_idx) => {
+                    let offset = shape_offset_in_bytes(shape_idx)?;
+                    self.source.seek(SeekFrom::Start(offset))
+                }
                 None => self.source.seek(SeekFrom::End(0)),
             }?;
             Ok(())
